@@ -130,6 +130,9 @@ func init() {
 					}
 				}
 				rec(nil, 3, 0)
+				c.Add("states", hist)
+				c.Add("transitions", grewN+inplN)
+				c.Add("traces_validated_against_impl", hist)
 				c.Add("histories", hist)
 				c.Add("appends_that_grew", grewN)
 				c.Add("appends_in_place", inplN)
